@@ -82,15 +82,20 @@ def rtc_shapes(case_names, tier):
         else:
             stats["torch_accepts_skipped"] += 1
             return
+        opn, case_ = group.split("/", 1)
         for how, fn in lib_fns:
             stats["required_raises"] += 1
             lab = f"{label}|{how}"
+            grp = group
+            if opn in ("matmul", "rmatmul", "add", "sub", "mul", "cat"):  # one group per kind of second operand
+                kind = "same_class_operand" if "other" in how else ("operator_operand" if "Dense(" in how else "tensor_operand")
+                grp = f"{opn}:{kind}/{case_}"
             try:
                 r = fn()
             except Exception:  # noqa  (any exception type is fine)
-                rec.check(group, lab, True)
+                rec.check(grp, lab, True)
                 continue
-            rec.check(group, lab, False, f"returned {describe(r)} where torch raises {terr}")
+            rec.check(grp, lab, False, f"returned {describe(r)} where torch raises {terr}")
 
     if tier == "quick":
         grid = [(torch.float64, [(), (2,), (1,), (2, 3)], [1, 2, 4]), (torch.float32, [(2,)], [3])]
@@ -210,11 +215,20 @@ def rtc_shapes(case_names, tier):
                 exp_sizes += [(m, n), (-1, -1), (*batch[1:], m, n)]
                 if batch[-1] > 1:
                     exp_sizes += [(3, *batch[:-1], batch[-1] + 1, m, n), (*batch[:-1], 1, m, n)]
+            rank_ = dense.dim()
             for sz in exp_sizes:
                 fns = [("op.expand(*sizes)", lambda sz=sz: op.expand(*sz))]
                 if all(s_ >= 0 for s_ in sz):
                     fns.append(("op.expand(torch.Size)", lambda sz=sz: op.expand(torch.Size(sz))))
-                require_raise(f"expand/{c.name}", f"{label}|sizes={sz}", lambda sz=sz: dense.expand(*sz), fns)
+                if len(sz) < rank_:
+                    ek = "fewer_sizes_than_dims"
+                elif len(sz) > rank_ and -1 in sz[:len(sz) - rank_]:
+                    ek = "new_leading_dim_-1"
+                elif len(sz) >= 2 and tuple(sz[-2:]) not in ((m, n), (-1, -1)):
+                    ek = "matrix_size_mismatch"
+                else:
+                    ek = "batch_size_mismatch"
+                require_raise(f"expand:{ek}/{c.name}", f"{label}|sizes={sz}", lambda sz=sz: dense.expand(*sz), fns)
 
             # ---------------- square operators: add_diagonal, solve, inv_quad ----------------
             if m == n:
@@ -270,15 +284,12 @@ def rtc_shapes(case_names, tier):
                     ("op.root_inv_decomposition()", lambda: op.root_inv_decomposition()), ("op.diagonalization()", lambda: op.diagonalization()),
                     ("op.add_diagonal(d[n])", lambda: op.add_diagonal(dv)), ("op.add_diagonal(d[m])", lambda: op.add_diagonal(T(m).abs())),
                     ("op.add_jitter()", lambda: op.add_jitter(1e-3)), ("op.inverse()", lambda: op.inverse()),
-                    ("torch.inverse(op)", lambda: torch.inverse(op)), ("op.eigh()", lambda: op.eigh()), ("op.eigvalsh()", lambda: op.eigvalsh()),
-                    ("torch.linalg.eigh(op)", lambda: torch.linalg.eigh(op)), ("op.sqrt_inv_matmul(R)", lambda: op.sqrt_inv_matmul(R)),
-                    ("op.zero_mean_mvn_samples(2)", lambda: op.zero_mean_mvn_samples(2)), ("torch.linalg.solve(op,R)", lambda: torch.linalg.solve(op, R)),
+                    ("torch.inverse(op)", lambda: torch.inverse(op)), ("torch.linalg.solve(op,R)", lambda: torch.linalg.solve(op, R)),
                 ]
                 for how, fn in sq:
                     stats["required_raises"] += 1
                     lab = f"{label}|{how}"
-                    # operations the design lists as square-only vs. further operations that only make sense for a square matrix
-                    grp = "square_only_extra" if ("zero_mean_mvn_samples" in how or "sqrt_inv_matmul" in how or "eig" in how) else "square_only"
+                    grp = "square_only"
                     try:
                         r = fn()
                     except Exception:  # noqa
@@ -349,6 +360,10 @@ def rtc_shapes(case_names, tier):
                 else:
                     stats["torch_accepts_skipped"] += 1
                     continue
+                if kind == "tensor":
+                    tup_ = ix if isinstance(ix, tuple) else (ix,)
+                    nt = sum(1 for a in tup_ if isinstance(a, list) or (torch.is_tensor(a) and a.dim() >= 1))
+                    kind = "tensor_absorbed" if nt >= 2 else "tensor_single"
                 for dbg in (True, False):
                     stats["required_raises"] += 1
                     lab = f"{label}|dbg={int(dbg)}|ix={key}"
@@ -383,7 +398,7 @@ RTC_META = {
     "families": "52 zoo cases + 31 extra nested / broadcasting cases x float64 x batch {(),(2,),(1,),(2,3)} x n {1,2,4} (+ float32 (2,) n=3; thorough: 6 batch "
                 "shapes x n {1,2,3,4,6} + float32) x operations {matmul/@/torch.matmul with tensor and operator rhs, rmatmul, +, -, * (both operand "
                 "orders, tensor / DenseLinearOperator / same-class operator of another size or batch), cat (3 dims), expand, add_diagonal, solve, "
-                "torch.linalg.solve, solve with left factor, inv_quad, inv_quad_logdet, 23 square-only operations on rectangular operators} x "
+                "torch.linalg.solve, solve with left factor, inv_quad, inv_quad_logdet, 18 square-only operations on rectangular operators} x "
                 "operand shapes {inner dim +1/+2/-1, size-1 inner dim, 0-d, 1-d, extra batch dim, transposed, non-broadcastable batch shapes}; "
                 "indices: ints / 0-d tensors {size, size+3, -size-1, -size-7}, 1-d / rank-2 tensors and lists with one out-of-range entry, in every "
                 "position, alone / behind Ellipsis / combined with int, slice and tensor indices (absorbed case), too many indices, two ellipses, "
